@@ -36,8 +36,19 @@ mod private {
             let offset = stream.tell();
             let mut serializer = Serializer::new(BlockCheck::Crc32);
             self.serialize_tail(&mut serializer)?;
-            let size = stream.write_serializer(serializer)?.into();
-            Ok(SizedOffset { size, offset })
+            let size = stream.write_serializer(serializer)?;
+            if size > 0xFFFF {
+                // The size of a tail is stored on 16 bits in its `SizedOffset`.
+                return Err(std::io::Error::new(
+                    std::io::ErrorKind::InvalidData,
+                    format!("Tail of {size} bytes is too big to be referenced (max is 65535)"),
+                )
+                .into());
+            }
+            Ok(SizedOffset {
+                size: size.into(),
+                offset,
+            })
         }
     }
 
